@@ -1,0 +1,16 @@
+//go:build verif
+
+// Contracts for the verif build tag (comment-only; see /verif/DESIGN.md §4).
+package registry
+
+//@ // regElemOK: what the collector relies on for an element found under (enterprise e, id i).
+//@ // regInv (all entries satisfy it) is checked for the loaded registry by enumeration, not deduced.
+//@ pure regElemOK(x *entities.InfoElement, i int, e int) bool = x != nil && x.ElementId == i && x.EnterpriseId == e
+//@     && (supportedKind(x.DataType) ==> x.Name != "" && (x.DataType != OctetArray ==> x.Len == fixedWidth(x.DataType)))
+//@ pure regInv() bool = forall e in [0, 4294967296): forall i in [0, 65536):
+//@     has(globalRegistryByID, e) && has(globalRegistryByID[e], i) ==> regElemOK(globalRegistryByID[e][i], i, e)
+
+//@ func GetInfoElementFromID(elementID, enterpriseID) (r, err)
+//@   requires reg:   regInv()
+//@   ensures  found: (err == nil) <==> (has(globalRegistryByID, enterpriseID) && has(globalRegistryByID[enterpriseID], elementID))
+//@   ensures  ok:    err == nil ==> regElemOK(r, elementID, enterpriseID) && r == globalRegistryByID[enterpriseID][elementID]
